@@ -175,6 +175,10 @@ def run_pls(ck, rng, tier, which):
             n, m = rng.randint(6, 20), rng.randint(1, 5)
             X, Y = gen_xy(rng, n, m, 1, rng.choice((0.0, 0.3)))
             cc, dd = rng.choice((-3.0, 0.5, 7.0)), rng.uniform(-10, 10)
+            if _ % 3 == 0 and abs(float(Y.sum())) > 1e-3:
+                # a change of units that makes the response tiny: column sum 1e-4 (well above the 1e-6 at
+                # which the library treats a column sum as zero)
+                cc, dd = 1e-4 / float(Y.sum()), 0.0
             xs = rng.choice((0, 1, 2))
             nlv = rng.randint(1, m)
             Xnew = np.array([[rng.gauss(0, 1) for _ in range(m)] for _ in range(3)])
@@ -186,7 +190,8 @@ def run_pls(ck, rng, tier, which):
             a0, a1 = outs2[2 * k], outs2[2 * k + 1]
             ck.case(("affine", cc, dd, repr(X[0].tolist())))
             p0, p1 = np.array(a0["ynew_all"]), np.array(a1["ynew_all"])
-            if np.abs(p1 - (cc * p0 + dd)).max() > 1e-6 * max(1.0, np.abs(p1).max()):
+            spread = max(abs(cc) * np.abs(Y - Y.mean()).max(), 1e-300)
+            if np.abs(p1 - (cc * p0 + dd)).max() > 1e-6 * spread + 1e-12 * abs(dd):
                 ck.fail("PLS", "affine_equivariance", "predictions for y -> %g*y + %g are not mapped the same way" % (cc, dd), {"X": X.tolist(), "Y": Y.tolist(), "c": cc, "d": dd, "xs": xs, "nlv": nlv})
     if checks.items:
         failing, logs, cerr = vf.run_cases_v(which.lower(), IMPORTS, DEFS, checks.items, shard=10, timeout=1500)
